@@ -430,12 +430,12 @@ Qed.
 (* re-staging: t1 was staged and transferred, then the source changed into t2 (any rewrite) and is
    staged into the same odb: the checkout is t2 - the current data - provided no two contents of the
    two generations collide *)
-Theorem restage_thm path t1 t2 s0 :
+Theorem restage_thm path path2 t1 t2 s0 :
   wf_tree t1 -> wf_tree t2 -> text_tree t2 -> digest_ok ->
   collision_free (in_play t1 ++ in_play t2) ->
   exists sg1, stage H path (walk_of (rstrip_sep path) t1) = Ok sg1 /\
     (incl s0 (sg_store sg1) ->
-     exists sg2, stage_from H s0 path (walk_of (rstrip_sep path) t2) = Ok sg2 /\
+     exists sg2, stage_from H s0 path2 (walk_of (rstrip_sep path2) t2) = Ok sg2 /\
        checkout (sg_store sg2) (sg_oid sg2) = Ok (sort_by file_leb (files t2))).
 Proof.
   intros Hwf1 Hwf2 Htx Hdig Hcf. eexists. split; [apply stage_spec; exact Hwf1|]. simpl. intros Hincl.
